@@ -753,8 +753,11 @@ def map_session(col, binpath, rng, tag, scratch):
         opts += ["--locations"] + loc_args + ["--airports", csvp]
     else:
         markers = {}
-    sess = session.RadarSession(binpath, plan, lat=lat, lon=lon, opts=opts, rows=60, cols=200, scratch=scratch)
-    inp = {"receiver": [lat, lon], "d_km": d, "options": opts, "lines": [l.decode() for l in lines], "tag": tag}
+    # the picture is a function of the canvas size, too: three terminal sizes (the wide default, a
+    # smaller one, one that is taller than wide in cells)
+    t_rows, t_cols = [(60, 200), (60, 200), (60, 200), (62, 151), (70, 120)][idx % 5]
+    sess = session.RadarSession(binpath, plan, lat=lat, lon=lon, opts=opts, rows=t_rows, cols=t_cols, scratch=scratch)
+    inp = {"receiver": [lat, lon], "d_km": d, "terminal": [t_rows, t_cols], "options": opts, "lines": [l.decode() for l in lines], "tag": tag}
     try:
         sess.wait_connected()
         rows = wait_rows(sess, 10)
@@ -864,12 +867,24 @@ def map_session(col, binpath, rng, tag, scratch):
             return sorted((r, c) for r in range(top + 1, bottom) for c in range(left + 1, right) if cs[r][c][1] == 4 and BRAILLE(cs[r][c][0]))
         c0 = centre_in_title()
         rows_per_deg_lat = None
-        for keyname, n_keys, axis in (("Up", 40, 0), ("Right", 10, 1)):
+        # (keyboard panning and dragging with the mouse compute the new centre by code of their own)
+        def drag(dc, dr):
+            c_, r_ = cc + 7, cr + 5
+            for kind, c2, r2 in (("down", c_, r_), ("drag", c_, r_), ("drag", c_ + dc // 2, r_ + dr // 2), ("drag", c_ + dc, r_ + dr), ("up", c_ + dc, r_ + dr)):
+                sess.send_raw(procs.mouse(kind, c2, r2), f"mouse:{kind}:{c2}:{r2}")
+                sess.p.pump(0.03)
+        stages = [("Up", 40, 0), ("Right", 10, 1)] if idx % 4 < 2 else [("DragDown", 10, 0), ("DragRight", 24, 1), ("Down", 25, 0), ("Left", 8, 1)]
+        for keyname, n_keys, axis in stages:
             b0 = blue_now()
             t0 = centre_in_title()
-            for _ in range(n_keys):
-                sess.key(keyname)
-                sess.p.pump(0.01)
+            if keyname == "DragDown":
+                drag(0, n_keys)
+            elif keyname == "DragRight":
+                drag(n_keys, 0)
+            else:
+                for _ in range(n_keys):
+                    sess.key(keyname)
+                    sess.p.pump(0.01)
             sess.settle(0.5)
             b1 = blue_now()
             t1 = centre_in_title()
